@@ -32,14 +32,14 @@ def analyse(name, seed=0):
         out['natural_stall'] = True
         out['blocked_at'] = r.get('blocked_at')
         out['record_result'] = {k: r.get(k) for k in ('clients', 'errors', 'server_exc', 'finished')}
-        return out, r, None
+        return out, r, dict(schedule=po.recorded_schedule(r['traces']), cut=r.get('blocked_at'))
     r2 = sessions.record(name, seed, perturb=seed * 7 + 3)
     out['stats']['record_s'] = round(time.time() - t0, 2)
     if not r2.get('completed'):
         out['natural_stall'] = True
         out['blocked_at'] = r2.get('blocked_at')
         out['record_result'] = {k: r2.get(k) for k in ('clients', 'errors', 'server_exc', 'finished')}
-        return out, r2, None
+        return out, r2, dict(schedule=po.recorded_schedule(r2['traces']), cut=r2.get('blocked_at'))
     if po.signature(r['traces']) != po.signature(r2['traces']):
         out['problems'].append('per-thread traces differ between two schedules (not a Kahn network): the single-trace encoding is not justified')
     out['problems'] += po.structure_checks(r['traces'])
@@ -98,7 +98,8 @@ def _case(name):
     res.outcomes = {'session analysed': 1}
     res.detail = json.dumps({k: v for k, v in out.items() if k not in ('threads',)}, default=str)[:1500]
     if out.get('natural_stall'):
-        res.cex.append({'kind': 'natural', 'session': name, 'seed': common.SEED, 'blocked_at': out.get('blocked_at'),
+        res.cex.append({'kind': 'schedule', 'session': name, 'seed': common.SEED, 'schedule': model['schedule'], 'cut': model['cut'],
+                        'found': 'the recorded run itself stalled; its own operation order is the schedule',
                         'result': out.get('record_result')})
         res.status = 'cex'
         return res
